@@ -654,6 +654,21 @@ def _through_siblings(ctx: core.Ctx, mod: ast.Module, cls: ast.ClassDef, names):
     from . import normast as _nm
     cls = _copy.deepcopy(cls)
     used = _nm.expand_sibling_calls(cls, mod)
+    # helpers of sibling modules with a longer straight-line body (`prefix, body = common.eliminate(body)`): inlined as statements
+    full = _nm.class_resolver(mod, cls)
+
+    def only_siblings(call):
+        f = call.func if isinstance(call, ast.Call) else None
+        if isinstance(f, ast.Attribute) and isinstance(f.value, ast.Name) and f.value.id in _nm.SIBLINGS and f.value.id not in ("self", "cls"):
+            h = full(call)
+            if h is not None:
+                used.setdefault(f.value.id, set()).add(h.name)
+            return h
+        return None
+    for i, m in enumerate(cls.body):
+        if isinstance(m, ast.FunctionDef) and any(isinstance(c, ast.Call) and isinstance(c.func, ast.Attribute) and isinstance(c.func.value, ast.Name)
+                                                   and c.func.value.id in _nm.SIBLINGS for c in ast.walk(m)):
+            cls.body[i] = _nm.inline_only(m, only_siblings)
     for m, hs in sorted(used.items()):
         srel = f"py/formak/{m}.py"
         smod = ctx.parse(srel)
@@ -826,6 +841,7 @@ def _flag_gates(fn, flagname):
             continue
         ok = True
         what = []
+        moves = []
         for a in arms:
             for sub in ([a] if isinstance(a, ast.expr) else [a]):
                 txt = ast.unparse(sub)
@@ -839,7 +855,9 @@ def _flag_gates(fn, flagname):
                 else:
                     if isinstance(sub, ast.Assign):
                         allowed = {"cse", "simplify", "Symbol", "count"}
-                        if not names or not names <= allowed or not (names & {"cse", "simplify"}):
+                        if not calls:
+                            moves.append(sub)          # plain data movement between locals (what an inlined helper's return leaves behind)
+                        elif not names <= allowed or not (names & {"cse", "simplify"}):
                             ok = False
                     elif isinstance(sub, ast.Return) and sub.value is not None:
                         # in a helper: `if flag: return simplify(x)`, `if not flag: return [], exprs` / `return cse(...)`: what is returned in
@@ -848,6 +866,8 @@ def _flag_gates(fn, flagname):
                             ok = False
                     else:
                         ok = False
+        if moves and len(moves) == len([a for a in arms if not isinstance(a, ast.expr)]):
+            ok = False                                   # the flag gates nothing but copies: no cse / simplify under it
         out.append(("; ".join(what)[:120], ok, n.lineno))
     return out
 
